@@ -25,6 +25,8 @@ def run(model, rep, tier):
     r5_owns_representation(ctx, rep)
     r6_visit_dispatch(ctx, rep)
     r7_edges_only_added(ctx, rep)
+    from . import robust
+    robust.asserts_have_no_effects(ctx, rep, 'C20.R20', 'C20')
     rep.units['cfg'] = ctx.cfg_stats
 
 
